@@ -179,8 +179,8 @@ VALUE_ALPHABET = " \t'\"_#;$[]\n.?" + "aB1-é,x\\/:"
 VALUE_PREFIXES = [""] * 12 + RESERVED_TOKENS + ["data", "loop"]
 
 
-def st_raw_value():
-    return st.tuples(st.sampled_from(VALUE_PREFIXES), st.text(VALUE_ALPHABET, max_size=5)).map("".join)
+def st_raw_value(max_len=5):
+    return st.tuples(st.sampled_from(VALUE_PREFIXES), st.text(VALUE_ALPHABET, max_size=max_len)).map("".join)
 
 
 def _make_cell(t):
@@ -193,9 +193,9 @@ def _make_cell(t):
     return [state, v, hit]
 
 
-def st_cell():
+def st_cell(max_len=5):
     """[state, text, narrowed ids]; state 0 present, 1 inapplicable, 2 missing."""
-    return st.tuples(st.sampled_from([0, 0, 0, 0, 0, 0, 1, 2]), st_raw_value()).map(_make_cell)
+    return st.tuples(st.sampled_from([0, 0, 0, 0, 0, 0, 1, 2]), st_raw_value(max_len)).map(_make_cell)
 
 
 def _name_pool():
@@ -209,21 +209,18 @@ def _name_pool():
 NAME_POOL = _name_pool()
 
 
-def st_names(n_min, n_max):
-    return st.lists(st.sampled_from(NAME_POOL), min_size=n_min, max_size=n_max, unique=True)
-
-
 def st_tables(tier):
     shape_cat = st.tuples(st.integers(1, 4), st.sampled_from([1, 1, 2, 2, 3, 3, 4, 5]), st.booleans())
     shape_block = st.lists(shape_cat, min_size=1, max_size=3)
     shape = st.lists(shape_block, min_size=1, max_size=2)
+    max_len = 5 if tier == "quick" else 9
 
     @st.composite
     def gen(draw):
         sh = draw(shape)
         n_cells = sum(ncol * nrow for blk in sh for ncol, nrow, _ in blk)
         n_names = len(sh) + sum(len(blk) for blk in sh) + sum(ncol for blk in sh for ncol, _, _ in blk)
-        cells = draw(st.lists(st_cell(), min_size=n_cells, max_size=n_cells))
+        cells = draw(st.lists(st_cell(max_len), min_size=n_cells, max_size=n_cells))
         # raw indices into NAME_POOL; a clash inside one container moves on to the next free name
         raw_names = iter(draw(st.lists(st.integers(0, len(NAME_POOL) - 1), min_size=n_names, max_size=n_names)))
         cells = iter(cells)
